@@ -357,7 +357,10 @@ def run_pt(sc, sched, canonical=False, want_trace=False):
                     t_call = sim.now
                     watch.update(deadline=sim.now + op[1] * 60.0, idle=0, evals=-1)
                     try:
-                        L('run_for', pt.run_for, minutes=op[1], swap_interval=op[2])
+                        if (sc["seed"] + len(sc["ops"])) % 2:
+                            L('run_for', pt.run_for, minutes=op[1], swap_interval=op[2])
+                        else:  # the same budget given in hours
+                            L('run_for', pt.run_for, hours=op[1] / 60.0, swap_interval=op[2])
                     finally:
                         watch["deadline"] = None
                     out.setdefault("timed_ops", []).append((op[1] * 60.0, sim.now - t_call))
